@@ -28,7 +28,7 @@ def check(run):
     run.mc("MC_Alias", consts={"AliasedFields": '@{"spk"}', "MaxWrites": 2}, invariants=["NoSharing"], tag="MC_Alias_spk_aliased",
            expect_violation="NoSharing", workers=1)
     common.mc_structs(run, kinds=("identity",))
-    run.gen("Gen_C08")
+    run.gen("Gen_C08", consts={"Part": "listed"})
     # serialisations kept by the caller while other values are serialised; caller's input buffers stay untouched (Read/Twins events)
     common.gen_structs(run, fams1=("ident",), fams2=("serchain", "lease", "sig", "offsig"))
     run.replay_and_judge()
